@@ -122,6 +122,12 @@ def run(chk):
     if mod is not None:
         mod.run_printer_correspondence(chk)
 
+    # (e) tie by regeneration: type_to_c, parens, ir_to_c_expression (22 registrations), the one-line statements of
+    # _ir_to_c.py are re-translated from /repo on every run and PROVED to lex (verified C lexer model/CLexer.v) to the
+    # tokens of the hand model CPrint.v; the C06 printer theorems are restated on the regenerated printer
+    from props._tie import run_tie
+    run_tie(chk, ["cprint"])
+
 
 def handle_rot(chk, index, d, known, what):
     for u in index.get("unexplained", []):
